@@ -87,6 +87,10 @@ Proof.
 Qed.
 
 (* ---- masks, parts, predicates, indexers ------------------------------------------------------ *)
+(* gen_is_in_sample / gen_is_out_of_sample are the masks to_in_sample / to_out_of_sample select with,
+   regenerated from wherever the source computes them (a private method of any name, or in place);
+   the public methods below always carry their masks inlined, so their lemmas are proved on the
+   inlined code and do not go through these two. *)
 
 Lemma bridge_is_in_sample f c : wf f -> gen_is_in_sample f c = rmap in_mask (steps c f).
 Proof.
@@ -102,19 +106,22 @@ Qed.
 
 Lemma bridge_to_in_sample f c : wf f -> gen_to_in_sample f c = to_in_sample c f.
 Proof.
-  intro H. unfold gen_to_in_sample, to_in_sample, gen_to_pandas. rewrite (bridge_is_in_sample f c H).
-  destruct (steps c f) as [s|] eqn:S; [|reflexivity]. cbn [rmap].
-  apply bridge_new_values. destruct (parts_as_filters c f s S) as [-> _].
-  apply sorted_lt_filter. exact H.
+  intro H. unfold gen_to_in_sample, to_in_sample, gen_to_pandas. cbv zeta.
+  rewrite (bridge_to_relative f c H).
+  pose proof (parts_as_filters c f) as P. unfold steps in *.
+  destruct (to_relative c f) as [r|]; [|reflexivity]. cbn [rmap] in *.
+  apply bridge_new_values. destruct (P (vals r) eq_refl) as [E _].
+  fold (in_mask (vals r)). rewrite E. apply sorted_lt_filter. exact H.
 Qed.
 
 Lemma bridge_to_out_of_sample f c : wf f -> gen_to_out_of_sample f c = to_out_of_sample c f.
 Proof.
-  intro H. unfold gen_to_out_of_sample, to_out_of_sample, gen_to_pandas.
-  rewrite (bridge_is_out_of_sample f c H).
-  destruct (steps c f) as [s|] eqn:S; [|reflexivity]. cbn [rmap].
-  apply bridge_new_values. destruct (parts_as_filters c f s S) as [_ ->].
-  apply sorted_lt_filter. exact H.
+  intro H. unfold gen_to_out_of_sample, to_out_of_sample, gen_to_pandas. cbv zeta.
+  rewrite (bridge_to_relative f c H).
+  pose proof (parts_as_filters c f) as P. unfold steps in *.
+  destruct (to_relative c f) as [r|]; [|reflexivity]. cbn [rmap] in *.
+  apply bridge_new_values. destruct (P (vals r) eq_refl) as [_ E].
+  fold (out_mask (vals r)). rewrite E. apply sorted_lt_filter. exact H.
 Qed.
 
 Lemma steps_length c f s : steps c f = Ok s -> zlen s = zlen (vals f).
@@ -126,18 +133,20 @@ Qed.
 
 Lemma bridge_is_all_in_sample f c : wf f -> gen_is_all_in_sample f c = is_all_in_sample c f.
 Proof.
-  intro H. unfold gen_is_all_in_sample, is_all_in_sample, gen_to_pandas.
-  rewrite (bridge_is_in_sample f c H).
-  destruct (steps c f) as [s|] eqn:S; [|reflexivity]. cbn [rmap]. unfold in_mask.
-  rewrite <- (steps_length c f s S). rewrite count_true_all. reflexivity.
+  intro H. unfold gen_is_all_in_sample, is_all_in_sample, gen_to_pandas. cbv zeta.
+  rewrite (bridge_to_relative f c H).
+  pose proof (steps_length c f) as L. unfold steps in *.
+  destruct (to_relative c f) as [r|]; [|reflexivity]. cbn [rmap] in *.
+  rewrite <- (L (vals r) eq_refl). rewrite count_true_all. reflexivity.
 Qed.
 
 Lemma bridge_is_all_out_of_sample f c : wf f -> gen_is_all_out_of_sample f c = is_all_out_of_sample c f.
 Proof.
-  intro H. unfold gen_is_all_out_of_sample, is_all_out_of_sample, gen_to_pandas.
-  rewrite (bridge_is_out_of_sample f c H).
-  destruct (steps c f) as [s|] eqn:S; [|reflexivity]. cbn [rmap]. unfold out_mask.
-  rewrite <- (steps_length c f s S). rewrite count_true_all. reflexivity.
+  intro H. unfold gen_is_all_out_of_sample, is_all_out_of_sample, gen_to_pandas. cbv zeta.
+  rewrite (bridge_to_relative f c H).
+  pose proof (steps_length c f) as L. unfold steps in *.
+  destruct (to_relative c f) as [r|]; [|reflexivity]. cbn [rmap] in *.
+  rewrite <- (L (vals r) eq_refl). rewrite count_true_all. reflexivity.
 Qed.
 
 Lemma bridge_to_indexer f c : wf f -> gen_to_indexer f c true = to_indexer c f.
